@@ -8,7 +8,7 @@
     Agreement predicates: Spec/Btor2Agree.v.  Only statements, [exact lemma] proofs,
     [Print Assumptions], examples. *)
 From Coq Require Import List String NArith Bool.
-From Patronus Require Import SysClosed Btor2Parse Btor2Sem Btor2Agree Btor2Witness Btor2SemWitness Btor2Refine Btor2NoCrash Btor2Sound Btor2Fix Btor2SoundFix Btor2FinalSpec Btor2Final.
+From Patronus Require Import SysClosed Btor2Parse Btor2Sem Btor2Agree Btor2Witness Btor2SemWitness Btor2Refine Btor2NoCrash Btor2Sound Btor2Fix Btor2SoundFix Btor2FinalSpec Btor2Final Btor2FinalInputs.
 Import ListNotations.
 Open Scope N_scope.
 
@@ -190,6 +190,20 @@ Theorem C08_final_system_sound :
 Proof. exact final_system_sound. Qed.
 Print Assumptions C08_final_system_sound.
 
+(** inputs get their declared sorts: the k-th input of the final system (k below the number of input lines) has
+    the sort that the sort token of the k-th input line denotes in the interpreter's sort table at that line
+    ([input_sorts val ls], Spec/Btor2FinalSpec.v); demoted and kept states: see [final_agrees] above *)
+Theorem C08_final_input_sorts :
+  forall v ls fin nin pat rho val S,
+    is_fix v = true -> env_wf rho ->
+    parse_lines_v v true ls = POk fin ->
+    reader_shape v true ls = Some (nin, pat) ->
+    final_env_agrees rho val fin nin pat ->
+    sem_run val ls = B2Ok S ->
+    Forall2 (fun e t => type_of e = t) (line_inputs fin nin) (input_sorts val ls).
+Proof. exact final_input_sorts. Qed.
+Print Assumptions C08_final_input_sorts.
+
 (** the same in both build profiles for texts over the supported operators *)
 Theorem C08_final_system_sound_profiles :
   forall v dbg ls fin nin pat rho val S,
@@ -260,7 +274,8 @@ Example C08_final_example :
           (nin =? 1)%nat && match pat with [true; false; true] => true | _ => false end &&
           String.eqb (String.concat "," (map sym_name (s_inputs fin))) "a,nice_name,a_0" &&
           String.eqb (String.concat "," (map (fun s => sym_name (st_sym s)) (s_states fin))) "better" &&
-          (List.length (m_states M) =? 3)%nat && (m_nin M =? 1)%nat
+          (List.length (m_states M) =? 3)%nat && (m_nin M =? 1)%nat &&
+          match input_sorts (final_val c08_rho fin nin pat) (lines_of c08_final_text) with [TBV 8] => true | _ => false end
       | B2Err _ => false
       end
   | _, _ => false
